@@ -2293,6 +2293,15 @@ func (self *ReplicationManager) clientSycnInited() {
 }
 
 func (self *ReplicationManager) SwitchToLeader() error {
+	if self.slock.state != STATE_CLOSE && self.slock.aof.aofFile == nil {
+		// this node has not synchronised with any leader since it started (none was reachable):
+		// what it knows is in its own log, which a follower only loads when it resumes a stream
+		err := self.slock.aof.Load()
+		if err != nil {
+			self.slock.logger.Errorf("Replication change to leader load aof files error %v", err)
+		}
+	}
+
 	self.glock.Lock()
 	if self.slock.state == STATE_CLOSE {
 		self.glock.Unlock()
